@@ -422,12 +422,17 @@ def IVSorts (m : MRS) : Bool :=
     | some v => isInfix v.sort.toList "xeipu".toList
     | none => false)
 
-/-- every quantifier's RSTR argument produces a link (it is an intrinsic variable, or selects a
-scope that has a representative), so the node is still a quantifier in the DMRS. -/
-def RstrLinked (m : MRS) (reps : Reps) : Bool :=
-  m.rels.all (fun e => e.args.all (fun a => a.1 != RESTRICTION_ROLE || (ivToNid m a.2).isSome ||
-    match dlookup (scopalTarget m a.2).1 reps with
+/-- the argument value produces a link: it is an intrinsic variable, or selects a scope that
+has a representative. -/
+def argLinked (m : MRS) (reps : Reps) (v : Var) : Bool :=
+  (ivToNid m v).isSome ||
+    match dlookup (scopalTarget m v).1 reps with
     | some (_ :: _) => true
-    | _ => false))
+    | _ => false
+
+/-- every quantifier's RSTR argument produces a link, so its node is still a quantifier in the
+DMRS. -/
+def RstrLinked (m : MRS) (reps : Reps) : Bool :=
+  m.rels.all (fun e => e.args.all (fun a => a.1 != RESTRICTION_ROLE || argLinked m reps a.2))
 
 end Verif.C04
